@@ -109,8 +109,18 @@ func (s *SessionStore) setSessionCookie(rw http.ResponseWriter, req *http.Reques
 	if err != nil {
 		return err
 	}
+	set := make(map[string]struct{}, len(cookies))
 	for _, c := range cookies {
 		http.SetCookie(rw, c)
+		set[c.Name] = struct{}{}
+	}
+	// Remove the cookies of an earlier, differently sized session that are
+	// not overwritten now, otherwise they shadow the new session on load.
+	cookieNameRegex := regexp.MustCompile(fmt.Sprintf("^%s(_\\d+)?$", regexp.QuoteMeta(s.Cookie.Name)))
+	for _, c := range req.Cookies() {
+		if _, ok := set[c.Name]; !ok && cookieNameRegex.MatchString(c.Name) {
+			http.SetCookie(rw, s.makeCookie(req, c.Name, "", time.Hour*-1))
+		}
 	}
 	return nil
 }
